@@ -54,6 +54,7 @@ import (
 	"github.com/IrineSistiana/mosproxy/internal/upstream/transport"
 	"github.com/IrineSistiana/mosproxy/verifharness/hx"
 	"github.com/quic-go/quic-go"
+	"golang.org/x/net/http2"
 )
 
 func init() { register("outage", 10, runOutage) }
@@ -102,6 +103,13 @@ type ogServer struct {
 
 	streamFn func(net.Conn)       // round 3: serves an accepted (and TLS-wrapped) stream instead of the plain echo
 	udpFn    func(net.PacketConn) // round 3: serves the UDP socket instead of the plain echo
+
+	// round 4
+	maxStreams int64                               // doq: MaxIncomingStreams; doh: h2 MaxConcurrentStreams (0 = library default)
+	quicFn     func(st quic.Stream, q []byte) bool // doq: handles the query itself (true) or leaves it to the echo
+	dohFn      func(w http.ResponseWriter, r *http.Request, q []byte) bool
+	replyDelay atomic.Int64 // udp: nanoseconds every reply is held back
+	qcount     atomic.Int32 // udp: query datagrams received
 }
 
 func ogNewServer(tr string) (*ogServer, error) {
@@ -205,8 +213,11 @@ func (s *ogServer) up(mode string) error {
 			alpn = "not-doq"
 		}
 		qt := &quic.Transport{Conn: pc}
-		ql, err := qt.Listen(&tls.Config{Certificates: []tls.Certificate{s.cert}, NextProtos: []string{alpn}},
-			&quic.Config{MaxIdleTimeout: 30 * time.Second})
+		qconf := &quic.Config{MaxIdleTimeout: 30 * time.Second}
+		if s.maxStreams > 0 {
+			qconf.MaxIncomingStreams = s.maxStreams
+		}
+		ql, err := qt.Listen(&tls.Config{Certificates: []tls.Certificate{s.cert}, NextProtos: []string{alpn}}, qconf)
 		if err != nil {
 			pc.Close()
 			return err
@@ -227,6 +238,9 @@ func (s *ogServer) up(mode string) error {
 						s.acc.Add(1)
 					}
 				}}
+			if s.maxStreams > 0 {
+				http2.ConfigureServer(hs, &http2.Server{MaxConcurrentStreams: uint32(s.maxStreams)})
+			}
 			s.hs = hs
 			go hs.ServeTLS(ln, "", "")
 		} else {
@@ -336,7 +350,13 @@ func (s *ogServer) serveUDP(pc net.PacketConn) {
 			s.acc.Add(1)
 		}
 		s.mu.Unlock()
-		pc.WriteTo(hx.BuildReply(append([]byte(nil), buf[:n]...), false, 0, [4]byte{1, 4, 1, 4}, 60), addr)
+		s.qcount.Add(1)
+		reply := hx.BuildReply(append([]byte(nil), buf[:n]...), false, 0, [4]byte{1, 4, 1, 4}, 60)
+		if d := time.Duration(s.replyDelay.Load()); d > 0 {
+			go func(a net.Addr) { time.Sleep(d); pc.WriteTo(reply, a) }(addr)
+			continue
+		}
+		pc.WriteTo(reply, addr)
 	}
 }
 
@@ -350,27 +370,32 @@ func (s *ogServer) serveQUIC(ql *quic.Listener) {
 		s.mu.Lock()
 		s.qconns = append(s.qconns, c)
 		s.mu.Unlock()
-		go ogServeQuicConn(c)
+		go s.serveQuicConn(c)
 	}
 }
 
-func ogServeQuicConn(c quic.Connection) {
+func (s *ogServer) serveQuicConn(c quic.Connection) {
 	for {
 		st, err := c.AcceptStream(context.Background())
 		if err != nil {
 			return
 		}
 		go func() {
-			defer st.Close()
 			var h [2]byte
 			if _, err := io.ReadFull(st, h[:]); err != nil {
+				st.Close()
 				return
 			}
 			q := make([]byte, binary.BigEndian.Uint16(h[:]))
 			if _, err := io.ReadFull(st, q); err != nil || len(q) < 12 {
+				st.Close()
 				return
 			}
+			if s.quicFn != nil && s.quicFn(st, q) {
+				return // the stream is the handler's business (it may leave it unfinished)
+			}
 			st.Write(c14Frame(hx.BuildReply(q, false, 0, [4]byte{1, 4, 1, 4}, 60)))
+			st.Close()
 		}()
 	}
 }
@@ -379,6 +404,9 @@ func (s *ogServer) serveDoH(w http.ResponseWriter, r *http.Request) {
 	q, err := base64RawURL(r.URL.Query().Get("dns"))
 	if err != nil || len(q) < 12 {
 		w.WriteHeader(400)
+		return
+	}
+	if s.dohFn != nil && s.dohFn(w, r, q) {
 		return
 	}
 	w.Header().Set("Content-Type", "application/dns-message")
